@@ -378,7 +378,17 @@ class OscMessageDispatcher(AbstractWrappingDispatcher):
     def __call__(self, msg, time, addr, recv_port):
         if msg[0] in self.active:
             for func in self.active[msg[0]][:]:  # May be modified by func.
-                fn.value(func, msg, time, addr, recv_port)
+                self._call(func, msg, time, addr, recv_port)
+
+    @staticmethod
+    def _call(func, msg, time, addr, recv_port):
+        # A failing responder function must not prevent the
+        # remaining responders from receiving the message.
+        try:
+            fn.value(func, msg, time, addr, recv_port)
+        except Exception:
+            _logger.error(
+                f'exception in responder function for {msg[0]}', exc_info=1)
 
     def register(self):
         _libsc3.main.add_osc_recv_func(self) # thisProcess.addOSCRecvFunc(this)
@@ -398,7 +408,7 @@ class OscMessagePatternDispatcher(OscMessageDispatcher):
         for key, funcs in self.active.copy().items():
             if _match_osc_address_pattern(pattern, key):
                 for func in funcs[:]:  # May be modified by func.
-                    fn.value(func, msg, time, addr, recv_port)
+                    self._call(func, msg, time, addr, recv_port)
 
     def type_key(self):
         return 'OSC matched'
